@@ -25,6 +25,19 @@ PROPS = {  # by path fragment of the touched files
  "database/loader.go": ["C03", "C08", "C15", "C02"],
  "embedding/": ["C19"],
  "context/": ["C13"],
+ "cache/cache.go": ["C05", "C12", "C11"],
+ "config/": ["C17", "C01", "C08"],
+ "errors/": ["C15", "C14", "C17"],
+ "cli/history.go": ["C16", "C17"],
+ "cli/alias.go": ["C17"],
+ "cli/root.go": ["C17", "C08"],
+ "cli/pipeline.go": ["C08", "C17", "C20"],
+ "cli/setup.go": ["C17"],
+ "cli/wizard": ["C17"],
+ "constants/": ["C01", "C05", "C12", "C14", "C15", "C17"],
+ "database/models.go": ["C03", "C01", "C08"],
+ "database/search_helpers.go": ["C01", "C13", "C19"],
+ "database/embedding_loader.go": ["C19"],
 }
 only = sys.argv[2].split(",") if len(sys.argv) > 2 else None
 jobs = queue.Queue()
